@@ -184,6 +184,46 @@ class CallSites(FiniteTask):
                             fn = par.name
                         cur = par
                     sites.append((mn, fn, evn, node.lineno, prot))
+        # a trigger inside a private helper is protected if every call of that helper is (transitively): extracting the call of the
+        # handler into a helper that is invoked inside the same try must not be an alarm
+        def walk_up(mtree_parents, node):
+            cur, prot, fn = node, False, "?"
+            while cur in mtree_parents:
+                par = mtree_parents[cur]
+                if isinstance(par, ast.Try) and cur in par.body:
+                    for h in par.handlers:
+                        t = ast.unparse(h.type) if h.type is not None else "BaseException"
+                        if t in ("Exception", "BaseException") or "Exception" in t.split(","):
+                            prot = True
+                if isinstance(par, ast.With) and cur in par.body:
+                    if any("attempt(" in ast.unparse(it.context_expr) for it in par.items):
+                        prot = True
+                if isinstance(par, ast.FunctionDef) and fn == "?":
+                    fn = par.name
+                cur = par
+            return prot, fn
+        allp = {}
+        for mn in mods:
+            m = repo.try_module(mn)
+            if m is not None:
+                pr = {}
+                for node in ast.walk(m.tree):
+                    for ch in ast.iter_child_nodes(node):
+                        pr[ch] = node
+                allp[mn] = (m, pr)
+
+        def helper_protected(name, depth=0):
+            if depth > 3 or not name.startswith("_") or name.startswith("__"):
+                return False
+            calls = []
+            for mn, (m, pr) in allp.items():
+                for node in ast.walk(m.tree):
+                    if isinstance(node, ast.Call):
+                        nm = node.func.attr if isinstance(node.func, ast.Attribute) else (node.func.id if isinstance(node.func, ast.Name) else None)
+                        if nm == name:
+                            calls.append(walk_up(pr, node))
+            return bool(calls) and all(p or helper_protected(f, depth + 1) for p, f in calls)
+        sites = [(mn, fn, evn, line, prot or helper_protected(fn)) for mn, fn, evn, line, prot in sites]
         emit("C26/call-sites/at-least-15-intervention-call-sites-found", len(sites) >= 15, detail=len(sites))
         for mn, fn, evn, line, prot in sites:
             emit(f"C26/call-sites/{mn}:{fn}/{evn}-is-inside-a-converting-try-or-attempt", prot, detail=f"line {line}",
